@@ -920,8 +920,15 @@ func (d *Director) SharedThenClose(a, b *Actor) {
 	b.Conn = shared
 	err := d.Connect(b, "", "enode://"+b.ID+"@198.51.100.77:30303", false)
 	d.logf("#%d   (host %s registered over %s, the connection of %s: %v)", d.n, b.Name, shared.Name, a.Name, err)
-	d.CloseConn(shared)
 	b.Conn = old
+	if d.choose("shared.moveaway", 2) == 1 {
+		// ... and before the shared connection goes away, its owner registers again over a new one (the other host
+		// still depends on the old connection)
+		d.W.Dial(a)
+		d.Connect(a, "", "", false)
+		d.checkRegistry(fmt.Sprintf("#%d re-registration of %s away from the shared connection", d.n, a.Name))
+	}
+	d.CloseConn(shared)
 }
 
 func (d *Director) CloseConn(c *Conn) {
